@@ -18,13 +18,27 @@ def one_rename_judge(g, res):
     return out
 
 
+def one_rename_many(g, res):
+    """every trashed argument arrives by exactly one rename (no fallback switches in this stage)"""
+    out = c01.src_untouched_judge(g, res)
+    lab = g['allowed'][0]['lab']
+    mut = res.get('mut')
+    if mut is None:
+        return out
+    n = sum(1 for oc in lab['ocs'] if oc == 'trashed')
+    renames = [m for m in mut if m[0] == 'rename' and m[2] == 'ok' and any(c.startswith('src:') for c in m[3])]
+    if len(renames) != n:
+        out.append('move: %d successful renames of sources for %d trashed arguments' % (len(renames), n))
+    return out
+
+
 def run(chk):
     quick = chk.tier == 'quick'
     chk.rule = ('TLC enumerates the configuration lattice of spec/Trash.tla (mount layouts x .Trash state x .Trash-$uid '
                 'state x XDG_DATA_HOME set/unset/empty x HOME set/unset x file location x --trash-dir x both fallback '
                 'switches) with one trash-put per edge; the real run must put the entry into the directory ChosenDir '
                 'prescribes; created directories must be 0700 under umask 022/000/077; the payload must arrive by '
-                'exactly one rename unless both fallback switches are on; stage td-through-link: --trash-dir spelled L/../name through a '
+                'exactly one rename unless both fallback switches are on; stage two-volumes: two arguments on different volumes in one invocation; stage td-through-link: --trash-dir spelled L/../name through a '
                 'symlink on another volume (only where the entry went is judged there); non-trivial = trashed or had to fail')
     chk.assumptions += common.ASSUME
     common.mc(chk, properties=['PutVolumeOK'])
@@ -42,6 +56,12 @@ def run(chk):
                                              g['lab']['opts']['hf'], g['lab']['opts']['hfenv']),
                             opts_fn=lambda g, seed: {'shim': {'trace': True}, 'td_spelling': 'linkdotdotx', 'gate_only': True},
                             judge=one_rename_judge, seeds_per_group=1)
+    # several arguments on DIFFERENT volumes in one invocation: each goes to the directory of its own volume (nothing decided
+    # for one argument may be reused for the next)
+    common.gen_tt(chk, 'two-volumes', 'Init_PutList', 'Next_Put2', 4, 700,
+                  strat=lambda g: (tuple(a.get('r') for a in g['lab']['args']), tuple(g['cfg']['altfile']), g['cfg']['top']['V1'],
+                                   g['lab']['opts']['force'], g['lab']['opts']['inter']), per_stratum=4,
+                  opts_fn=opts, judge=one_rename_many)
     chk.exhaustive = not quick
 
 
